@@ -19,8 +19,9 @@ def same_key(k, key):
 class GuardView:
     """predicates over a list of normalised guards"""
 
-    def __init__(self, gs):
+    def __init__(self, gs, inter=None):
         self.gs = gs
+        self.inter = inter
 
     def _lookup_key(self, t):
         """if t is get(map,k) / ok_or(get(map,k), kind) / okval of those: (k, kind_or_None)"""
@@ -50,9 +51,10 @@ class GuardView:
             if g[0] == "bool" and g[2] is True and g[1][0] == "call" and g[1][1] == "HashMap::contains_key" \
                     and len(g[1][2]) == 2 and same_key(g[1][2][1], key):
                 return True, None
-            if g[0] == "bool" and g[2] is True and g[1][0] == "okval" and g[1][1][0] == "call" and \
-                    short_name(g[1][1][1]) == "exists" and len(g[1][1][2]) == 2 and same_key(g[1][1][2][1], key):
-                return True, None
+            if g[0] == "bool" and g[2] is True:
+                t = _peel(g[1])
+                if t[0] == "call" and short_name(t[1]) == "exists" and len(t[2]) == 2 and same_key(t[2][1], key):
+                    return True, None
         return False, None
 
     def vacant(self, key):
@@ -108,10 +110,32 @@ class GuardView:
         """Index(key, ..rfind(key,'/')) as normalised term pattern check"""
         def is_parent(k):
             k = norm(k)
+            # rfind('/').map(|i| &key[..i]).unwrap_or_default(): same prefix for every non-root canonical path
+            if k[0] == "call" and k[1] in ("Option::unwrap_or_default", "Option::unwrap_or") and k[2] and \
+                    (len(k[2]) == 1 or k[2][1] == ("str", "")) and k[2][0][0] == "call" and k[2][0][1] == "Option::map" and \
+                    len(k[2][0][2]) == 2 and k[2][0][2][1][0] == "closure" and self.inter is not None:
+                cb = self.inter.facts.body(k[2][0][2][1][1])
+                src = k[2][0][2][0]
+                if cb is not None and src[0] == "call" and src[1] == "str::rfind" and same_key(src[2][0], key):
+                    # the closure lives in the callee: its captured `path` is the callee's own argument; re-key it
+                    cases = self.inter.ret_cases(cb)
+
+                    def rekey(t):
+                        if not isinstance(t, tuple):
+                            return t
+                        if t and t[0] == "arg" and len(t) > 3 and t[3] != key[3] and t[2] == "path":
+                            return norm(key)
+                        return tuple(rekey(x) for x in t)
+                    return bool(cases) and all(is_parent(rekey(norm(ct))) for ct, _, _ in cases)
+                return False
             if k[0] == "call" and k[1] == "Index::index" and len(k[2]) == 2 and same_key(k[2][0], key):
                 r = k[2][1]
                 if r[0] == "agg" and r[1].endswith("RangeTo"):
                     e = dict(r[3]).get("end")
+                    if e and e[0] == "call" and e[1] in ("Option::unwrap_or", "Option::unwrap_or_default") and e[2] and \
+                            (len(e[2]) == 1 or e[2][1] == ("int", 0)):
+                        # rfind(..).unwrap_or(0): identical for every non-root canonical path (they all contain '/')
+                        e = ("okval", e[2][0])
                     if e and e[0] == "okval" and e[1][0] == "call" and e[1][1] == "str::rfind" and same_key(e[1][2][0], key) \
                             and e[1][2][1] == ("char", "/"):
                         return True
@@ -134,16 +158,17 @@ class GuardView:
                 out.append(lk[0])
         if g[0] == "bool" and g[2] is True and g[1][0] == "call" and g[1][1] == "HashMap::contains_key" and len(g[1][2]) == 2:
             out.append(g[1][2][1])
-        if g[0] == "bool" and g[2] is True and g[1][0] == "okval" and g[1][1][0] == "call" and \
-                short_name(g[1][1][1]) == "exists" and len(g[1][1][2]) == 2:
-            out.append(g[1][1][2][1])
+        if g[0] == "bool" and g[2] is True:
+            t = _peel(g[1])
+            if t[0] == "call" and short_name(t[1]) == "exists" and len(t[2]) == 2:
+                out.append(t[2][1])
         return out
 
     def empty_dir(self, key):
         for g in self.gs:
             if g[0] == "bool" and g[1][0] == "call" and g[1][1] in ("Option::is_some", "Option::is_none") and g[1][2]:
                 want_none = (g[1][1] == "Option::is_some" and g[2] is False) or (g[1][1] == "Option::is_none" and g[2] is True)
-                x = g[1][2][0]
+                x = _peel(g[1][2][0])
                 if want_none and x[0] == "call" and short_name(x[1]) in ("next",) and x[2]:
                     it = x[2][0]
                     while it[0] in ("okval", "await"):
@@ -151,6 +176,12 @@ class GuardView:
                     if it[0] == "call" and short_name(it[1]) == "read_dir" and len(it[2]) == 2 and same_key(it[2][1], key):
                         return True
         return False
+
+
+def _peel(t):
+    while t[0] in ("okval", "await"):
+        t = t[1]
+    return t
 
 
 def short_name(p):
